@@ -174,6 +174,7 @@ func c10Setup(prm c10Params) func(c *fw.Ctx, name string) explore.Setup {
 						wr.Write([]byte("held"))
 					}
 				}
+				var kept []io.WriteCloser // message writers that were closed successfully
 				for i, op := range prm.Prog {
 					cl := st.calls[i]
 					ctx := ctxs[i]
@@ -196,6 +197,9 @@ func c10Setup(prm c10Params) func(c *fw.Ctx, name string) explore.Setup {
 							}
 							if err == nil {
 								err = wr.Close()
+							}
+							if err == nil {
+								kept = append(kept, wr)
 							}
 						}
 						cl.err = err
@@ -228,6 +232,14 @@ func c10Setup(prm c10Params) func(c *fw.Ctx, name string) explore.Setup {
 					}
 				}
 				if allOK {
+					// a redundant Close on a writer whose message went out and whose context has
+					// been cancelled since is harmless (its result is not judged)
+					// (only when that message is the connection's latest: every Writer of a
+					// connection is the same object, so an old handle used after a later message
+					// is misuse, not a second Close)
+					if len(kept) > 0 && prm.Prog[len(prm.Prog)-1] == "WM" {
+						kept[len(kept)-1].Close()
+					}
 					// probe round trip with a fresh context
 					st.probeErr = conn.Write(bg, websocket.MessageText, []byte("probe"))
 					if st.probeErr == nil && prm.Fam == "rw" {
